@@ -17,7 +17,7 @@ OPS = {'o': 'cleared', 'x': 'failed', '-': 'passed', 'r': 'retired'}
 
 
 class Player(object):
-    def __init__(self, n, on_call=None, noise=0, draw=None, max_reg=4, lenient=False):
+    def __init__(self, n, on_call=None, noise=0, draw=None, max_reg=4, lenient=False, float_heights=False):
         self.c, self.m, self.hist = hjsearch.start(BIBS[:n])
         self.alive = True
         self.on_call = on_call
@@ -25,11 +25,12 @@ class Player(object):
         self.draw = draw
         self.max_reg = max_reg
         self.lenient = lenient
+        self.float_heights = float_heights
         self.calls = 0
         self.all_calls = []      # every call issued, refused ones included
 
     def _run(self, call):
-        vs, status = hjsearch.check_call(self.c, self.m, call, self.hist)
+        vs, status = hjsearch.check_call(self.c, self.m, call, self.hist, None, self.float_heights)
         self.calls += 1
         self.all_calls.append(call)
         if status == 'ok':
@@ -106,16 +107,19 @@ def jumpoff(p, draw, max_heights=3):
                 break
 
 
-def random_play(draw, on_call=None, noise=0, nmin=2, lenient=False):
+def random_play(draw, on_call=None, noise=0, nmin=2, lenient=False, float_heights=False):
     n = nmin + draw(5 - nmin)
     hreg = 1 + draw(4)
-    p = Player(n, on_call, noise, draw, lenient=lenient)
+    p = Player(n, on_call, noise, draw, lenient=lenient, float_heights=float_heights)
     bibs = BIBS[:n]
+    step = hjsearch.STEP if not float_heights or draw(2) else Decimal('0.01')
     h = Decimal('0.95')
+    if float_heights:
+        h = Decimal(95 + draw(250)) / 100          # anywhere between 0.95 and 3.44: many values are inexact as floats
     for i in range(hreg):
         if not p.alive or p.c.state not in ('scheduled', 'started', 'won'):
             break
-        h += hjsearch.STEP * (1 + draw(2))
+        h += step * (1 + draw(2))
         if not p.call(('bar', h)):
             break
         script = 'o' if i == 0 and draw(3) else CELLS[draw(len(CELLS))]
